@@ -2,6 +2,8 @@
 
 package syntax
 
+import "unicode"
+
 // Reference helpers shared by the C14/C15 harnesses. None of them calls into
 // the code under test or into unicode/utf8.
 
@@ -172,3 +174,7 @@ func zzRefDecode(in string, raw, isByte bool) (out []byte, ok bool) {
 	}
 	return out, true
 }
+
+// zzIsUnicodeLetter is the spec's notion "Unicode letter" (category L), taken
+// from the standard library table.
+func zzIsUnicodeLetter(r rune) bool { return unicode.IsLetter(r) }
